@@ -31,6 +31,30 @@ fn c15_h11_pyramid_intersect() {
 	kani::cover!(!la.is_empty() && lb.is_empty());
 }
 
+// the same law with a CONCRETE second operand that has holes in its zoom range (populated at levels 2, 5 and 31 only):
+// however the implementation iterates over the operand (all levels, populated levels, zoom range), the iteration stays
+// concrete, so this instance still gets a verdict where the fully symbolic one above times out on a rewritten loop
+#[kani::proof]
+#[kani::unwind(34)]
+#[kani::stub(std::fmt::format, crate::verif_kani::stubs::fmt_format)]
+#[kani::stub(std::backtrace::Backtrace::capture, crate::verif_kani::stubs::backtrace_capture)]
+fn c15_h11_pyramid_intersect_gapped() {
+	let a = any_pyramid();
+	let mut b = TileBBoxPyramid::new_empty();
+	b.level_bbox[2] = TileBBox { level: 2, x_min: 0, y_min: 0, x_max: 3, y_max: 3, max: 3 };
+	b.level_bbox[5] = TileBBox { level: 5, x_min: 3, y_min: 7, x_max: 20, y_max: 9, max: 31 };
+	b.level_bbox[31] = TileBBox { level: 31, x_min: 5, y_min: 5, x_max: u32::MAX >> 1, y_max: 6, max: u32::MAX >> 1 };
+	let l = any_level();
+	let p = any_coord2();
+	let mut c = a.clone();
+	c.intersect(&b);
+	let (la, lb, lc) = (a.get_level_bbox(l), b.get_level_bbox(l), c.get_level_bbox(l));
+	assert_eq!(inb(lc, &p), inb(la, &p) && inb(lb, &p), "pyramid intersect is not the level-wise set intersection (operand with gaps in its zoom range)");
+	assert!(lc.level == l && valid_bbox(lc));
+	kani::cover!(l == 3 && !la.is_empty());
+	kani::cover!(l == 5 && !lc.is_empty());
+}
+
 // include_bbox_pyramid: level-wise bounding union. The included pyramid is symbolic on ONE level (concrete per
 // instance) and empty elsewhere: iter_levels' filter position then stays concrete (32 symbolic levels: out of memory).
 fn pyramid_include<const L: usize>() {
